@@ -384,7 +384,11 @@ where
     let mut tls_config = rustls_client_config(config)?;
     tls_config.alpn_protocols = vec![b"http/1.1".to_vec()];
     let mut endpoint = quinn::Endpoint::client(SocketAddrV4::new(Ipv4Addr::UNSPECIFIED, 0).into())?;
-    let quic_client_config = quinn::ClientConfig::new(Arc::new(QuicClientConfig::try_from(tls_config)?));
+    let mut quic_client_config = quinn::ClientConfig::new(Arc::new(QuicClientConfig::try_from(tls_config)?));
+    // a relayed flow may stay silent for longer than the idle timeout of QUIC (30 s): keep its connection alive
+    let mut transport_config = quinn::TransportConfig::default();
+    transport_config.keep_alive_interval(Some(Duration::from_secs(10)));
+    quic_client_config.transport_config(Arc::new(transport_config));
     endpoint.set_default_client_config(quic_client_config);
     let server_name = if let Some(server_name) = &config.server_name { server_name } else { &host.to_owned() };
     let conn = endpoint.connect(format!("{host}:{port}").parse()?, server_name)?.await?;
